@@ -16,6 +16,15 @@ LEVEL = {
  "C04": ("exploration", "bounded-exhaustive input enumeration; differential oracle in-memory vs. persisted+opened vs. reference; independent footer/CRC decoder",
          "a cross-section of every batch family x chunk modes x both build tags: Persist and WriteTo bytes compared, footer and CRC decoded independently, Open's reported configuration compared, and the complete query surface of the re-opened segment compared with the in-memory one and the reference; exhaustive within the bounds",
          "reference model in harness/ref; footer decoder in props/c04.go written from zap.md; vector answers come from the stand-in engine (DESIGN 3.4)", "4 C04"),
+ "C05": ("model_checking", "explicit-state exploration of the merge state space on the implementation (states deduplicated by canonical key, successors by replay)",
+         "every merge of the bounded state space (menu of 7 segment shapes x every drop vector x provenance x chunk modes, depth <= 2/3) is executed on the real code; in every reached state the renumbering maps, reported size, Count, Fields, stored fields, DocID and DocNumbers are compared with the reference of the survivors",
+         "reference model in harness/ref; state-key deduplication argument in DESIGN.md 4 C05/C06", "4 C05/C06"),
+ "C06": ("model_checking", "explicit-state exploration of the merge state space on the implementation (states deduplicated by canonical key, successors by replay)",
+         "same state space as C05; in every reached state every postings list (frequency, norm, locations with field names), the dictionary and all doc values of the merged segment are compared with the reference of the survivors",
+         "reference model in harness/ref; state-key deduplication argument in DESIGN.md 4 C05/C06", "4 C05/C06"),
+ "C13": ("model_checking", "explicit-state exploration of the merge state space on the implementation (states deduplicated by canonical key, successors by replay)",
+         "every merge of the bounded synonym state space (6 segment shapes x every drop vector x provenance, depth <= 2/3) is executed on the real code and every (thesaurus, term, exclusion bitmap) lookup on the merged segment compared with the reference of the surviving definitions",
+         "reference model in harness/ref", "4 C12/C13"),
  "C01": ("exploration", "bounded-exhaustive input enumeration on the implementation vs. reference model",
          "every batch of a stated finite alphabet (cell menu per document x field, N<=3; column and chunk-boundary families) x chunk modes x both build tags is built by the real code and its complete term/postings content compared with an independent reference model; exhaustive within the bounds, no sampling",
          "reference model in harness/ref; inputs only inside the alphabet; Go map order not enumerable (semantic oracle)", "4 C01"),
